@@ -1,4 +1,5 @@
 import Pcore.Model.Dispatch
+import Pcore.Model.CtorHashTree
 /-!
 # The constructors of Integer, Boolean, Array/Tuple and Hash/Struct on the driver's alphabet (property C16, `new`)
 
@@ -15,7 +16,7 @@ constructors are in Model/CtorNum.lean; the constructor lookup (`ctorOf`) and `n
 | strconv.ParseInt(s, radix, 64) for radix ∈ {2,8,10,16}    | `parseInt` (modelled, §5)    |
 | types/booleantype.go `newGoConstructor("Boolean", …)`     | `booleanCtor`                |
 | types/arraytype.go `newGoConstructor3(["Array","Tuple"])` | `arrayCtor`                  |
-| types/hashtype.go `newGoConstructor3(["Hash","Struct"])` (key-value array and Iterable dispatches; the tree-array body is not modelled) | `hashCtor` |
+| types/hashtype.go `newGoConstructor3(["Hash","Struct"])` (tree-array, key-value array and Iterable dispatches; the tree walk is Model/CtorHashTree.lean) | `hashCtor` |
 | types/hashtype.go `WrapHashFromArray`                     | `hashFromArray`              |
 | types/stringtype.go `stringValue.Elements` + `WrapValues` | `stringElements`             |
 | types/inittype.go `InitType.New` / `create` (with and without init arguments) | `initCall`   |
@@ -229,8 +230,9 @@ def keyValueArray : Ty := .arr (.tuple [.any, .any]) 1 none
 /-- `Iterable` on the alphabet: arrays, hashes and strings are `px.Indexed` -/
 def iterableTy : Ty := .var [.arr .any 0 none, .hash .any .any 0 none, .str 0 none]
 
-/-- the constructor registered for `Hash` and `Struct`.  The body of the first dispatch (tree arrays) is NOT modelled:
-    it answers `UNMODELLED`, which `newModel` turns into "no answer" (the driver refuses the op) -/
+/-- the constructor registered for `Hash` and `Struct`.  The first dispatch (tree arrays): with one argument
+    `WrapHashFromArray` (the paths become keys), with the option the tree walk of Model/CtorHashTree.lean — which answers
+    `UNMODELLED` for a key with a hash inside; `newModel` turns that into "no answer" (the driver refuses the op) -/
 def hashCtor : Ctor where
   creators :=
     [ { ops := [.param treeArray, .optional (.enum ["tree", "hash_tree"])], kind := .fn },
@@ -238,7 +240,8 @@ def hashCtor : Ctor where
       { ops := [.param iterableTy], kind := .fn } ]
   body := fun i args =>
     match i, args with
-    | 0, _ => .reported "UNMODELLED"
+    | 0, [.arr vs] => hashFromArray vs                    -- `if len(args) < 2 { return WrapHashFromArray(args[0].(*Array)) }`
+    | 0, .arr vs :: option :: _ => treeBody vs option
     | 1, .arr vs :: _ => hashFromArray vs                 -- WrapHashFromArray(args[0].(*Array))
     | 2, .arr vs :: _ => hashFromArray vs
     | 2, .hash es :: _ => .value (.hash es)
